@@ -775,6 +775,11 @@ class LineWorld:
             return True
         if k == 'upstream':
             return op[1] in self.dev and all(u in self.dev for u in op[2])
+        if k == 'upstream_edit':
+            if op[1] not in self.dev or not all(u in self.dev for u in list(op[2]) + list(op[3])):
+                return False
+            cur = [u.name for u in self.dev[op[1]].upstream]
+            return all(u in cur for u in op[2]) and not any(u in cur for u in op[3])
         return op[1] in self.dev
 
     def _op_labels(self, positions, kind='op'):
@@ -1027,6 +1032,18 @@ class LineWorld:
             self.dev[op[1]].set_upstream(lst)
             lst.clear()                      # the caller re-uses its list
             hub.tlog.append(('upstream', op[1], tuple(op[2])))
+        elif k == 'upstream_edit':
+            # the usual idiom: take the list the getter returns, edit it in place, hand it back
+            d_ = self.dev[op[1]]
+            lst = d_.upstream
+            for u in op[2]:
+                lst.remove(self.dev[u])
+            for u in op[3]:
+                lst.append(self.dev[u])
+            names = tuple(x.name for x in lst)
+            d_.set_upstream(lst)
+            lst.clear()
+            hub.tlog.append(('upstream', op[1], names))
         elif k == 'cycle':
             self.dev[op[1]].cycle_time = op[2]
         elif k == 'reg':
